@@ -611,9 +611,21 @@ def rule_r3_sigs_r5(ctx):
                 # default details_func=repr
                 ctx.ob("R5", f"{target}: details_func defaults to repr", True, nontrivial=False)
                 continue
+            if isinstance(df, ast.Name) and df.id in wmod.functions:
+                # a named module-level function that only returns an expression is read like the lambda it replaces
+                g = wmod.functions[df.id]
+                body = [x for x in g.node.body if not (isinstance(x, ast.Expr) and isinstance(x.value, ast.Constant) and isinstance(x.value.value, str))
+                        and not isinstance(x, ast.Pass) and not (isinstance(x, ast.Delete) and all(isinstance(t, ast.Name) for t in x.targets))]
+                if not body:
+                    body = [ast.Return(value=None)]
+                if len(body) == 1 and isinstance(body[0], ast.Return) and not g.node.decorator_list:
+                    lam = ast.Lambda(args=g.node.args, body=body[0].value if body[0].value is not None else ast.Constant(value=None))
+                    ast.copy_location(lam, g.node)
+                    lam._parent = getattr(df, "_parent", None)
+                    df = lam
             if not isinstance(df, ast.Lambda):
-                ctx.check("R5", f"{target}: details_func is a lambda", False, wrap_f, stmt,
-                          "details_func is not a lambda; cannot check what it retains", construct=f"details {target}")
+                ctx.check("R5", f"{target}: details_func is a lambda or a one-expression module function", False, wrap_f, stmt,
+                          "details_func is neither a lambda nor a module-level function returning one expression; cannot check what it retains", construct=f"details {target}")
                 continue
             used = _consumes_params(df, wmod)
             ctx.check("R3", f"{target}: details_func does not iterate the call's arguments", used is None, wrap_f, used if used is not None else df,
